@@ -1173,6 +1173,12 @@ class Pipeline:
     def _validate_mapspec(self) -> None:
         """Validate the MapSpecs for all functions in the pipeline."""
         for f in self.functions:
+            # MapSpecs that were autogenerated ('... -> y[unnamed_0]') from the consumers known
+            # so far are generated again below from *all* current consumers; otherwise the
+            # result would depend on the order in which the functions were added.
+            if f.mapspec is not None and f.mapspec._is_generated and not f.mapspec.inputs:
+                f.mapspec = None
+        for f in self.functions:
             if f.mapspec and at_least_tuple(f.output_name) != f.mapspec.output_names:
                 msg = (
                     f"The output_name of the function `{f}` does not match the output_names"
